@@ -87,7 +87,27 @@ PATH = ("path", "reassignment.rs", "impl Dependencies for ReassignmentPath", "Re
         "match *self { ReassignmentPath::Ident(i) => nd(i), ReassignmentPath::ReferenceToSelf(_) => Set::<Dep>::empty(), ReassignmentPath::Index { lhs, index } => nd(*lhs).union(nd(index)), ReassignmentPath::DotLookup { lhs, dot_chain, .. } => nd(*lhs).union(nd(dot_chain)) }",
         "the root variable, every index expression and every method-call argument on the way")
 
+def _array_flat_map(b):
+    """R2: `[a, b, ..].into_iter().flat_map(|x| x.net_dependencies()).collect()` over a literal array: the items' results appended in order"""
+    items, cur, d = [], [], 0
+    for t in b["items"] + [","]:
+        if t in ("(", "[", "{"): d += 1
+        elif t in (")", "]", "}"): d -= 1
+        if t == "," and d == 0:
+            if cur: items.append(cur)
+            cur = []
+        else:
+            cur.append(t)
+    out = ["{", "let mut verif_acc = vempty ( ) ;"]
+    for it in items:
+        out += ["{", "let mut verif_t = (", *it, ") . net_dependencies ( ) ;", "vappend ( & mut verif_acc , & mut verif_t ) ;", "}"]
+    return out + ["verif_acc", "}"]
+
+
 RULES = [
+    Rule("R2", "[ $$items ] . into_iter ( ) . flat_map ( | $x | $x . net_dependencies ( ) ) . collect ( )", _array_flat_map, why="flat_map over a literal array: each item's free variables, appended in order"),
+    Rule("R2", "[ $$items ] . iter ( ) . flat_map ( | $x | $x . net_dependencies ( ) ) . collect ( )", _array_flat_map, why="flat_map over a literal array: each item's free variables, appended in order"),
+    Rule("R1", "Vec < super :: Dependency >", "Vec < Dep >", why="type path"), Rule("R1", "Vec < Dependency >", "Vec < Dep >", why="type name"),
     Rule("R12", "vec ! [ ]", "vempty ( )", why="vec![] (with its set view)"),
     Rule("R13", "$a . append ( & mut $$b ) ;", lambda bb: f"{{ let mut verif_tmp = {text(bb['b'])} ; vappend ( & mut {text(bb['a'])} , & mut verif_tmp ) ; }}", why="Vec::append (temporary named; set view of the concatenation)"),
 ]
